@@ -631,6 +631,27 @@ def z_parallel_probe(exe):
     return line, out[0], ph, st, [fl(w) for w in out[1].split()]
 
 
+def long_path_probes(exe):
+    """steps whose path length is 1.25× the chord, photons sampled at u = 0.99 / 0.97 of the
+    step: the emission point must still be on the chord [pre, post]"""
+    pre = [1.0, -2.0, 0.5]
+    d = [0.6, 0.0, 0.8]
+    chord = 0.2
+    post = [pre[i] + chord * d[i] for i in range(3)]
+    st = {"charge": -1.0, "time": 1e-9, "sl": 1.25 * chord, "chord": chord, "v0": 0.95, "pre": pre,
+          "v1": 0.94, "post": post}
+    ms = {"ype": 100.0, "rs": 1.0, "comps": [[1.0, 4.0e-5, 1.0e-6, 0.0, 1e-9]]}
+    # selector, Box–Muller pair, cost, φ, polarisation angle, step fraction u = 0.99, delay
+    sc = [0.5, 0.1, 0.5, 0.3, 0.2, 0.6, 0.99, 0.5]
+    l1 = "scint 1 | %s | %s | %s" % (dist_words(st), scint_mat_words(ms), hxs(sc))
+    mc = {"mode": "P", "es": [1e-6, 2e-6, 4e-6], "ns": [1.3, 1.35, 1.4]}
+    # energy, rejection, φ, step fraction u = 0.97 (accepted: second value 0)
+    sc2 = [0.5, 0.3, 0.25, 0.97, 0.0, 0.5]
+    l2 = "cer P 1 | %s | %s | %s" % (dist_words(st), cer_mat_words(mc), hxs(sc2))
+    _, out = vlib.run_lines([exe], [l1, l2])
+    return [(l1, ("scint", st, ms, 1, sc), out[0]), (l2, ("cer", st, mc, 1, sc2), out[1])]
+
+
 def near_axis_probe(exe):
     rot = [0.0003, -0.0004, math.sqrt(1 - 25e-8)]
     line = "rot %s" % hxs([0.0, 0.0, 1.0] + rot)
@@ -659,6 +680,7 @@ def run(ctx):
     meta += [("corpus",)] * len(corpus)
     diverged, kinds, distinct, fails = [], {}, set(), []
     photons = 0
+    long_path = {}
     _, oh = vlib.run_lines([exe], lines)
     if ps["model_ok"]:
         _, om = vlib.run_lines([vlib.model_exe("C20")], lines)
@@ -679,11 +701,18 @@ def run(ctx):
         if a not in ("bad-op", "<missing>"):
             distinct.add(l)
         if k in ("scint", "cer"):
-            photons += a.count(" ; ") + (0 if a in ("none", "validate-error") else 1)
+            nph = len(parse_photons(a)[0])
+            photons += nph
+            if meta[i][1].get("path_over_chord", 1.0) > 1.0:
+                long_path[k] = long_path.get(k, 0) + nph
         try:
             oracle_line(l, meta[i], a, fails)
         except (ValueError, IndexError, ZeroDivisionError, OverflowError) as e:
             fails.append(("oracle-parse", l, a, {"error": repr(e)}))
+    if min(long_path.get("scint", 0), long_path.get("cer", 0)) < 200:
+        fails.append(("generator-coverage", "gen_lines", str(long_path),
+                      {"expected": "at least 200 scintillation and 200 Cerenkov photons from steps "
+                                   "with step_length > |post - pre| in every run"}))
     if diverged:
         broken.append(f"correspondence: model and implementation differ on {len(diverged)} ops "
                       f"(first: {diverged[0]['op'][:60]})")
@@ -700,6 +729,16 @@ def run(ctx):
     if not abs(dot(na_res, na_rot) - 1.0) <= 1e-9:
         fails.insert(0, ("rotate-near-axis-sign", na_line, na_out,
                       {"dir": [0, 0, 1], "rot": na_rot, "expected": na_rot, "actual": na_res}))
+    lp_photons = 0
+    for lp_line, lp_meta, lp_out in long_path_probes(exe):
+        lp_photons += len(parse_photons(lp_out)[0])
+        pf = []
+        oracle_line(lp_line, lp_meta, lp_out, pf)
+        for f in reversed(pf):
+            fails.insert(0, f)
+    if lp_photons != 2:
+        fails.insert(0, ("long-path-probe-no-photon", "long_path_probes", str(lp_photons),
+                         {"expected": "one photon from each of the two probe ops"}))
     zp_line, zp_out, zp_ph, zp_st, zp_unit = z_parallel_probe(exe)
     if zp_ph and any(math.isnan(v) for v in zp_ph[0][2] + zp_ph[0][3]):
         fails.insert(0, ("rotate-nan-z-parallel", zp_line, zp_out,
@@ -749,7 +788,9 @@ def run(ctx):
     ]
     ctx.coverage.update({
         "evaluations": len(lines), "distinct_nontrivial": len(distinct), "photons_checked": photons,
-        "rule": "random steps (speeds in (0,1) incl. near the Cerenkov threshold, positions, step "
+        "photons_with_path_longer_than_chord": long_path,
+        "rule": "random steps (speeds in (0,1) incl. near the Cerenkov threshold, positions, path "
+                "length = chord × (1 … 1.5) for ~60 % of the steps, step "
                 "directions incl. ±z and the near-axis branch of rotate, step lengths, charges "
                 "incl. neutral), refractive-index tables (through MaterialParams+CerenkovParams, or "
                 "raw incl. non-monotone/constant/decreasing with arbitrary integral tables), "
